@@ -68,6 +68,14 @@ def sample_config(rng, idx):
         cfg.update(n=min(cfg["n"], 2), num_iters=300, max_time=float("inf"), num_particles=min(cfg["num_particles"], 2))
     if idx % 40 == 23:
         cfg.update(n=min(cfg["n"], 3), num_particles=300, num_iters=min(cfg["num_iters"], 2), heavy=False)
+    cfg["many_clones"] = idx % 40 == 31
+    if cfg["many_clones"]:
+        # a longer chain over shallow data with a large fixed concentration and subtree updates only: many small clones,
+        # subtrees cut out of the middle of the label range and replaced by smaller ones, hundreds of times
+        cfg.update(n=[9, 10, 8][(idx // 40) % 3], D=1 + (idx // 40) % 2, clustered=False, loss_mode="none", heavy=False,
+                   subtree_update_prob=1.0, concentration_update=False, concentration_value=[20.0, 100.0][(idx // 40) % 2],
+                   num_particles=[8, 5][(idx // 80) % 2], num_iters=300, thin=[1, 7][(idx // 40) % 2], max_time=float("inf"),
+                   outlier_prob=[0.0, 1e-4, 0.0][(idx // 40) % 3], grid_size=11)
     cfg["inject"] = None
     if cfg["concentration_update"] and cfg["outlier_prob"] > 0 and idx % 3 == 0:
         cfg["inject"] = {"value": INJECT[(idx // 3) % len(INJECT)], "every": 1 + (idx // 15) % 2}
@@ -151,7 +159,10 @@ def run_task(task):
                 part.count("heavy_inputs")
             else:
                 rows, samples = inputs.make_table(rng, n_mut, cfg["D"], tumour_content=bool(idx % 2),
-                                                  error_rate=bool(idx % 3 == 0), string_ids=True)
+                                                  error_rate=bool(idx % 3 == 0), string_ids=True,
+                                                  junk_from=0 if cfg.get("many_clones") else None)
+                if cfg.get("many_clones"):
+                    part.count("many_clone_subtree_runs")
             in_file = os.path.join(tmpdir, "in_%d.tsv" % idx)
             inputs.write_table(rows, in_file)
             cluster_file = None
